@@ -13,9 +13,10 @@ Inductive phase := PInit | PHelo | PMail | PRcpt.
 Definition txn := option (bytes * list bytes).
 Record astate := { a_phase : phase; a_txn : txn; a_stored : nat (* recipients stored, including withdrawn ones *);
                    a_auth : bool (* C01: an AUTH succeeded earlier on this connection *);
-                   a_esmtp : bool (* C09: the last accepted greeting was EHLO *) }.
+                   a_esmtp : bool (* C09: the last accepted greeting was EHLO *);
+                   a_cert : bool (* C01: tls_verify() accepted a client certificate earlier on this connection *) }.
 
-Definition a_init : astate := {| a_phase := PInit; a_txn := None; a_stored := 0; a_auth := false; a_esmtp := false |}.
+Definition a_init : astate := {| a_phase := PInit; a_txn := None; a_stored := 0; a_auth := false; a_esmtp := false; a_cert := false |}.
 
 (** F<sender>NUL (T<recipient>NUL)* NUL; a recipient at an address literal (the local IP) is written with
     the host name from control/localiphost instead *)
@@ -33,37 +34,41 @@ Definition trace_step (e : event) (a : astate) : option astate :=
   match e with
   | Note NBoundary =>
       (* sender and recipients are gone; a greeting stays *)
-      Some {| a_phase := match a_phase a with PInit => PInit | _ => PHelo end; a_txn := None; a_stored := 0; a_auth := a_auth a; a_esmtp := a_esmtp a |}
-  | Note NHelo => Some {| a_phase := PHelo; a_txn := None; a_stored := 0; a_auth := a_auth a; a_esmtp := a_esmtp a |}
+      Some {| a_phase := match a_phase a with PInit => PInit | _ => PHelo end; a_txn := None; a_stored := 0; a_auth := a_auth a; a_esmtp := a_esmtp a; a_cert := a_cert a |}
+  | Note NHelo => Some {| a_phase := PHelo; a_txn := None; a_stored := 0; a_auth := a_auth a; a_esmtp := a_esmtp a; a_cert := a_cert a |}
   | Note (NMail f) =>
       (* C08: MAIL only after HELO/EHLO and outside a transaction;
          C01/C02: on the submission port only from a client that is entitled to relay (relay list or an earlier successful AUTH) *)
       match a_phase a with
-      | PHelo => if o_submission o && negb (Z.ltb 0 (o_relay o)) && negb (a_auth a) then None
-                 else Some {| a_phase := PMail; a_txn := Some (f, []); a_stored := 0; a_auth := a_auth a; a_esmtp := a_esmtp a |}
+      | PHelo => if o_submission o && negb (Z.ltb 0 (o_relay o)) && negb (a_auth a) && negb (a_cert a) then None
+                 else Some {| a_phase := PMail; a_txn := Some (f, []); a_stored := 0; a_auth := a_auth a; a_esmtp := a_esmtp a; a_cert := a_cert a |}
       | _ => None
       end
   | Note (NRcpt addr cls) =>
       match a_txn a with
       | Some (f, rs) =>
           (* C08: a bounce has at most one recipient;  C15: at most MAXRCPT recipients are stored;
-             C01: a recipient outside rcpthosts needs the relay list to match or an earlier successful AUTH *)
+             C01: a recipient outside rcpthosts needs the relay list to match, an earlier successful AUTH, or a client
+             certificate that tls_verify() accepted earlier on this connection *)
           if (match f, a_stored a with [], S _ => true | _, _ => false end) then None
           else if Nat.leb MAXRCPT (a_stored a) then None
-          else if (match cls with RNotLocal => negb (Z.ltb 0 (o_relay o)) && negb (a_auth a) | RLocal => false end) then None
-          else Some {| a_phase := PRcpt; a_txn := Some (f, rs ++ [addr]); a_stored := S (a_stored a); a_auth := a_auth a; a_esmtp := a_esmtp a |}
+          else if (match cls with RNotLocal => negb (Z.ltb 0 (o_relay o)) && negb (a_auth a) && negb (a_cert a) | RLocal => false end) then None
+          else Some {| a_phase := PRcpt; a_txn := Some (f, rs ++ [addr]); a_stored := S (a_stored a); a_auth := a_auth a; a_esmtp := a_esmtp a; a_cert := a_cert a |}
       | None => None                      (* C08: RCPT only after MAIL *)
       end
-  | Note (NEsmtp e) => Some {| a_phase := a_phase a; a_txn := a_txn a; a_stored := a_stored a; a_auth := a_auth a; a_esmtp := e |}
+  | Note (NEsmtp e) => Some {| a_phase := a_phase a; a_txn := a_txn a; a_stored := a_stored a; a_auth := a_auth a; a_esmtp := e; a_cert := a_cert a |}
   | Note (NAuth name) =>
       (* C09: AUTH is accepted only in ESMTP mode: the last accepted greeting was EHLO;
          C01/C09: authenticated from now on, for the rest of the connection (not undone by RSET, HELO or a new transaction) *)
       if negb (a_esmtp a) then None else
       Some {| a_phase := a_phase a; a_txn := a_txn a; a_stored := a_stored a;
-              a_auth := a_auth a || negb (match name with [] => true | _ => false end); a_esmtp := a_esmtp a |}
+              a_auth := a_auth a || negb (match name with [] => true | _ => false end); a_esmtp := a_esmtp a; a_cert := a_cert a |}
+  | Note (NCert name) =>
+      (* C01: from now on entitled by certificate, for the rest of the connection (relayclient = 1 is never taken back) *)
+      Some {| a_phase := a_phase a; a_txn := a_txn a; a_stored := a_stored a; a_auth := a_auth a; a_esmtp := a_esmtp a; a_cert := true |}
   | Note NWithdraw =>
       match a_txn a with
-      | Some (f, _) => Some {| a_phase := PRcpt; a_txn := Some (f, []); a_stored := S (a_stored a); a_auth := a_auth a; a_esmtp := a_esmtp a |}
+      | Some (f, _) => Some {| a_phase := PRcpt; a_txn := Some (f, []); a_stored := S (a_stored a); a_auth := a_auth a; a_esmtp := a_esmtp a; a_cert := a_cert a |}
       | None => None
       end
   | Note (NData k) =>
